@@ -1912,6 +1912,14 @@ class _FormatInferInstance(Visitor):
             zeros: set[SetValue] = {Fraction(0)}
             if cand.has_neg_zero:
                 zeros.add(NEG_ZERO)
+            # "no finite value but zero" says nothing about the special ones:
+            # `inf * 0` is a NaN
+            if cand.has_nan:
+                zeros.add(Special.NAN)
+            if cand.has_pos_inf:
+                zeros.add(Special.POS_INF)
+            if cand.has_neg_inf:
+                zeros.add(Special.NEG_INF)
             return SetFormat(frozenset(zeros))
         mat = cand.format()
         if (isinstance(mat, AbstractableFormat)
